@@ -27,6 +27,15 @@ MUTANTS = {
     "c18-odd-break": ("pulsarbat/utils.py", "                    if x & 1:\n                        break\n                    x >>= 1\n                else:\n                    return N\n\n            f75 *= 5\n        f7 *= 7\n    return guess\n\n\n@lru",
                       "                    if x % 4:\n                        break\n                    x >>= 1\n                else:\n                    return N\n\n            f75 *= 5\n        f7 *= 7\n    return guess\n\n\n@lru", ["C18"]),
     "c18-f7-lt-N": ("pulsarbat/utils.py", "    while f7 < guess:", "    while f7 < N:", ["C18"]),
+    "c02-swap-bt": ("pulsarbat/core.py", '{"bottom": 0, "center": 0.5, "top": 1}', '{"bottom": 1, "center": 0.5, "top": 0}', ["C02"]),
+    "c02-floordiv": ("pulsarbat/core.py", "+ _align - self.nchan / 2", "+ _align - self.nchan // 2", ["C02"]),
+    "c02-centre-mid": ("pulsarbat/core.py", '{"center_freq": (f[0] + f[-1]) / 2, "freq_align": "center"}',
+                       '{"center_freq": f[len(f) // 2], "freq_align": "center"}', ["C02"]),
+    "c02-keep-align": ("pulsarbat/core.py", '{"center_freq": (f[0] + f[-1]) / 2, "freq_align": "center"}',
+                       '{"center_freq": (f[0] + f[-1]) / 2}', ["C02"]),
+    "c02-no-odd-rule": ("pulsarbat/core.py", 'self._freq_align = "center" if self.nchan % 2 else freq_align',
+                        'self._freq_align = freq_align', ["C02"]),
+    "c02-stokes-index": ("pulsarbat/core.py", '_stokes_ids = {"I": 0, "Q": 1, "U": 2, "V": 3}', '_stokes_ids = {"I": 0, "Q": 2, "U": 1, "V": 3}', ["C02"]),
 }
 
 # behaviour-preserving edits: no check may fire
